@@ -133,7 +133,7 @@ impl Prop for C01 {
     fn wall_cap_s(&self, tier: Tier) -> u64 {
         match tier {
             Tier::Quick => 400,
-            Tier::Thorough => 5400,
+            Tier::Thorough => 2400,
         }
     }
     fn rule(&self) -> &'static str {
@@ -256,7 +256,7 @@ impl Prop for C02 {
     fn wall_cap_s(&self, tier: Tier) -> u64 {
         match tier {
             Tier::Quick => 400,
-            Tier::Thorough => 5400,
+            Tier::Thorough => 2400,
         }
     }
     fn shrink_budget(&self) -> u64 {
